@@ -144,7 +144,8 @@ type program struct {
 	NVar   int
 	Inputs []Jet // program cases: value only (seeded by Variables); directed cases: explicit jets
 	Direct bool  // inputs carry explicit jets (set with Alloc/SetDerivative/SetHessian)
-	Seed   int   // 0: ad.Variables(order, ...), 1: SetVariable one by one
+	Seed   int   // 0: ad.Variables(order, ...), 1: SetVariable one by one, 2 / 3: Variables of a dense / sparse vector holding the objects
+	Hist   int   // 0: fresh input objects, 1 / 2: re-activated objects with an earlier life at the same / another order
 	Stmts  []stmt
 	Pool   []dirty
 }
@@ -186,26 +187,73 @@ func setJet(x ad.MagicScalar, j Jet) {
 // makeInputs builds the input scalars of a direct run.
 func (p *program) makeInputs() []ad.ConstScalar {
 	ms := make([]ad.MagicScalar, len(p.Inputs))
+	var vec ad.MagicVector // Seed 2 / 3: the inputs are the elements of a dense / sparse Real vector
+	if !p.Direct && p.Seed >= 2 {
+		if p.Seed == 2 {
+			vec = ad.NullDenseMagicVector(p.realType(), len(ms))
+		} else {
+			vec = ad.NullSparseMagicVector(p.realType(), len(ms))
+		}
+	}
 	for i, in := range p.Inputs {
-		ms[i] = p.newReal(in.V)
+		if vec != nil {
+			ms[i] = vec.MagicAt(i)
+			ms[i].SetFloat64(in.V)
+		} else {
+			ms[i] = p.newReal(in.V)
+		}
 		if p.Direct {
 			setJet(ms[i], in)
 		}
 	}
 	if !p.Direct {
-		if p.Seed == 0 {
-			ad.Variables(p.Order, ms...)
-		} else {
-			for i := range ms {
-				ms[i].SetVariable(i, len(ms), p.Order)
-			}
+		if p.Hist > 0 {
+			p.history(ms, vec)
 		}
+		p.activate(ms, vec, p.Order)
 	}
 	out := make([]ad.ConstScalar, len(ms))
 	for i := range ms {
 		out[i] = ms[i]
 	}
 	return out
+}
+
+var seedModes = []string{"Variables", "SetVariable", "DenseVector.Variables", "SparseVector.Variables"}
+
+// activate makes the scalars variables of the given order in one of four ways; in the container-level ways the
+// scalars are the elements of a dense / sparse Real vector whose Variables method is called.
+func (p *program) activate(ms []ad.MagicScalar, vec ad.MagicVector, order int) {
+	switch {
+	case vec != nil:
+		vec.Variables(order)
+	case p.Seed == 0:
+		ad.Variables(order, ms...)
+	default:
+		for i := range ms {
+			ms[i].SetVariable(i, len(ms), order)
+		}
+	}
+}
+
+// history gives the input objects an earlier life before the program activates them: they were variables of an
+// earlier computation (Hist 1: same n and order as the program, Hist 2: another order) and were overwritten in
+// place with a non-linear result, x_i <- x_i * w with w a variable of value 1 (the value is preserved exactly,
+// gradient and Hessian are not zero).  A re-activation must give clean seeds again.
+func (p *program) history(ms []ad.MagicScalar, vec ad.MagicVector) {
+	order := p.Order
+	if p.Hist == 2 {
+		order = 3 - p.Order
+	}
+	p.activate(ms, vec, order)
+	w := p.newReal(1)
+	w.Alloc(len(ms), order)
+	w.SetDerivative(0, 1)
+	for i := range ms {
+		c := ms[i].CloneMagicScalar()
+		ms[i].Mul(c, w)
+		ms[i].Mul(ms[i].CloneMagicScalar(), w) // twice: second derivatives w.r.t. one variable as well
+	}
 }
 
 // recorder collects what the oracle and the in-process assertions need.
@@ -413,7 +461,7 @@ func (p *program) encode(rec *recorder) map[string]any {
 		}
 		st[i] = m
 	}
-	return map[string]any{"T": p.T, "order": p.Order, "N": p.NVar, "direct": p.Direct, "seedmode": p.Seed, "inputs": ins, "stmts": st}
+	return map[string]any{"T": p.T, "order": p.Order, "N": p.NVar, "direct": p.Direct, "seedmode": seedModes[p.Seed], "history": []string{"fresh objects", "re-activated,same n and order", "re-activated,other order"}[p.Hist], "inputs": ins, "stmts": st}
 }
 
 var debugHook func(si int, recv ad.ConstScalar, v ad.ConstVector)
@@ -699,7 +747,7 @@ func directedReductions() []dred {
 func reductionProgram(r *prng.Rand, d dred) *program {
 	op := c02.OpByName(d.op)
 	n := len(d.x) + len(d.y)
-	p := &program{T: d.T, Order: d.order, Direct: d.jets, Seed: r.Intn(2)}
+	p := &program{T: d.T, Order: d.order, Direct: d.jets, Seed: r.Intn(4), Hist: r.Intn(3)}
 	p.NVar = n
 	if d.jets {
 		p.NVar = r.Range(1, 3)
@@ -733,7 +781,7 @@ func reductionProgram(r *prng.Rand, d dred) *program {
 }
 
 func genProgram(r *prng.Rand) (*program, bool) {
-	p := &program{T: r.Pick([]string{"Real64", "Real32"}), Order: r.Range(1, 2), NVar: r.Range(1, 4), Seed: r.Intn(2)}
+	p := &program{T: r.Pick([]string{"Real64", "Real32"}), Order: r.Range(1, 2), NVar: r.Range(1, 4), Seed: r.Intn(4), Hist: r.Intn(3)}
 	for i := 0; i < p.NVar; i++ {
 		p.Inputs = append(p.Inputs, Jet{V: p.hold(drawInput(r))})
 	}
